@@ -188,12 +188,12 @@ def ask_child(root, roots, run_dir, tag, cache_dir=None):
     jf = os.path.join(run_dir, 'jobs', tag + '.json')
     with open(jf, 'w') as f:
         json.dump({'root': root, 'roots': roots}, f)
-    env = dict(os.environ, PYTHONHASHSEED='0', VERIF_RUN_DIR=run_dir)
+    env = dict(os.environ, PYTHONHASHSEED='0', VERIF_RUN_DIR=run_dir, PYTHONPATH=str(VERIF))
     env.pop('VERIF_CACHE_DIR', None)
     if cache_dir:
         env['VERIF_CACHE_DIR'] = cache_dir
     try:
-        r = subprocess.run([PYTHON, '-c', _CHILD, jf], cwd=str(VERIF), env=env, capture_output=True,
+        r = subprocess.run([PYTHON, '-c', _CHILD, jf], cwd=os.getcwd(), env=env, capture_output=True,
                            text=True, timeout=600)
         if r.returncode != 0:
             return None
